@@ -233,12 +233,27 @@ def nf_data(d: PassData) -> dict:
     return out
 
 
+def _leaf_field(a: Any, b: Any, last: str) -> str:
+    """Name of the innermost PassData attribute on the path to the first difference."""
+    if isinstance(a, tuple) and isinstance(b, tuple) and len(a) == len(b):
+        if len(a) == 2 and a[0] == 'passdata' and b[0] == 'passdata':
+            da, db = dict(a[1]), dict(b[1])
+            for k in da:
+                if k in db and da[k] != db[k]:
+                    return _leaf_field(da[k], db[k], k)
+            return last
+        for x, y in zip(a, b):
+            if x != y:
+                return _leaf_field(x, y, last)
+    return last
+
+
 def first_diff(a: dict, b: dict) -> str | None:
     for k in a:
         if k not in b:
             return k + ':missing'
         if a[k] != b[k]:
-            return k
+            return _leaf_field(a[k], b[k], k)
     for k in b:
         if k not in a:
             return k + ':unexpected'
